@@ -22,6 +22,7 @@
 package main
 
 import (
+	"bytes"
 	"encoding/json"
 	"flag"
 	"fmt"
@@ -31,6 +32,8 @@ import (
 	"sort"
 	"strconv"
 	"strings"
+	"text/template"
+	"unicode/utf8"
 
 	"github.com/metrico/qryn/reader/logql/logql_parser"
 	"github.com/metrico/qryn/reader/logql/logql_transpiler_v2/clickhouse_planner"
@@ -428,6 +431,113 @@ func genEmptyLabelFilter(r *rand.Rand) (string, []string) {
 	return q, class
 }
 
+// `| line_format "tmpl"` (round 5): the line becomes the template executed over the current labels; every later stage reads
+// the new line and the query returns it. Templates: no field, one field, two fields, a field printed twice, braces / quote /
+// percent / backslash in the text (format() patterns and string literals escape them), a JSON document (a json stage behind
+// it reads the formatted line), the text a regexp template matches. In front: nothing, filters, json / regexp / drop (the
+// template then prints extracted or dropped labels). Behind: line filters whose value is cut out of the rendered template
+// (so that label values decide them), json / regexp stages over the formatted line with a filter on what they extract, label
+// filters, drop, a second line_format. From a PRNG stream of its own.
+func genLineFormat(r *rand.Rand) (string, []string) {
+	class := []string{"line-format"}
+	sel := [][2]string{{"a", "b"}, {"job", "api"}, {"level", "error"}, {"status", "200"}, {"_x1", "it"}}
+	q := ""
+	if r.Intn(4) == 0 {
+		q = genMatchers(r)
+	} else {
+		k := r.Intn(len(sel))
+		q = "{" + sel[k][0] + "=" + quoted(r, sel[k][1]) + "}"
+	}
+	L := pick(r, labelNames)
+	M := pick(r, labelNames)
+	for M == L {
+		M = pick(r, labelNames)
+	}
+	pool := []string{"b", "api", "error", "200", "1.5", "it", "10"}
+	switch r.Intn(7) {
+	case 0:
+		q += genFilter(r, &class)
+	case 1:
+		q += " " + []string{"|=", "!=", "|~"}[r.Intn(3)] + " " + quoted(r, pick(r, []string{"x", "it", "hello", "a"}))
+		class = append(class, "linefilter")
+	case 2:
+		q += " | json " + L + "=" + quoted(r, pick(r, jsonPaths))
+		class = append(class, "json")
+	case 3:
+		q += genRegexp(r, &class)
+	case 4:
+		q += " | drop " + pick(r, []string{L, M, L + "=" + quoted(r, pick(r, pool))})
+		class = append(class, "drop")
+	}
+	tk := r.Intn(9)
+	tmpl := []string{
+		"zzz",
+		"{{." + L + "}}",
+		"{{." + L + "}}: done {x}",
+		"lvl={{." + L + "}} st={{." + M + "}}",
+		`{"k":"{{.` + L + `}}","n":"{{.` + M + `}}"}`,
+		"{{." + L + "}} {{." + L + "}}",
+		"it's 100% {{." + L + "}}\\ _",
+		"{{ ." + L + " }}}{",
+		"<{{." + M + "}}|{{." + L + "}}>",
+	}[tk]
+	q += " | line_format " + quoted(r, tmpl)
+	render := func(lv, mv string) string {
+		t := tplField.ReplaceAllStringFunc(tmpl, func(m string) string {
+			if tplField.FindStringSubmatch(m)[1] == L {
+				return lv
+			}
+			return mv
+		})
+		return t
+	}
+	for n := r.Intn(3); n > 0; n-- {
+		switch k := r.Intn(10); {
+		case k < 4: // a line filter on the formatted line
+			full := render(pick(r, pool), pick(r, pool))
+			v := full
+			switch r.Intn(4) {
+			case 0:
+				v = full[:(len(full)+1)/2]
+			case 1:
+				v = full[len(full)/2:]
+			case 2:
+				v = pick(r, pool)
+			}
+			op := []string{"|=", "|=", "!=", "|~", "!~"}[r.Intn(5)]
+			if op == "|~" || op == "!~" {
+				if r.Intn(2) == 0 {
+					v = regexp.QuoteMeta(v)
+				} else {
+					v = pick(r, []string{"^" + regexp.QuoteMeta(v), "[0-9]+", "e.*o", "^lvl=[a-z]+ ", "\\d\\.5"})
+				}
+			}
+			q += " " + op + " " + quoted(r, v)
+			class = append(class, "linefilter")
+		case k == 4 && tk == 4: // a json stage over the formatted document
+			y := pick(r, labelNames)
+			q += " | json " + y + "=" + quoted(r, pick(r, []string{"k", "n", "zz"})) + " | " + y + []string{"=", "!=", "=~"}[r.Intn(3)] + quoted(r, pick(r, pool))
+			class = append(class, "json", "labelfilter")
+		case k == 4 && tk == 3: // a regexp stage over the formatted line
+			q += " | regexp " + quoted(r, reTmpls[3].re) + " | " + pick(r, []string{"level", "status"}) + []string{"=", "!="}[r.Intn(2)] + quoted(r, pick(r, pool))
+			class = append(class, "regexp", "labelfilter")
+		case k == 4 || k == 5:
+			q += " | " + L + []string{"=", "!=", "=~"}[r.Intn(3)] + quoted(r, pick(r, pool))
+			class = append(class, "labelfilter")
+		case k == 6:
+			q += " | drop " + L
+			class = append(class, "drop")
+		case k == 7:
+			q += " | line_format " + quoted(r, pick(r, []string{"{{." + M + "}}!", "second", "{{." + L + "}}"}))
+		case k == 8:
+			q += genJson(r, &class)
+		default:
+			q += genFilter(r, &class)
+		}
+	}
+	return q, class
+}
+
 func genParserQuery(r *rand.Rand) (string, []string) {
 	if r.Intn(4) == 0 {
 		return genRelabelAfterFilters(r)
@@ -501,6 +611,17 @@ type qinfo struct {
 	jparams   []jparam     // json parameters: label and split path
 	rparams   []rparam     // regexp stages
 	stages    []string
+	lfmts     []string // line_format templates
+	prog      []pstage // the stages that change the line or the labels, in pipeline order (see reach)
+}
+
+// one stage of the pipeline as the table builder replays it (filters are not replayed: see reach)
+type pstage struct {
+	kind string // json | regexp | drop | line_format
+	jps  []jparam
+	rp   rparam
+	drop [][2]string // name, value ("" = by name)
+	tmpl string
 }
 
 type jparam struct {
@@ -647,6 +768,7 @@ func info(script *logql_parser.LogQLScript) *qinfo {
 			qi.walkLF(p.LabelFilter)
 		case p.Parser != nil && p.Parser.Fn == "json" && len(p.Parser.ParserParams) > 0:
 			qi.stages = append(qi.stages, "json")
+			jp0 := len(qi.jparams)
 			for _, pp := range p.Parser.ParserParams {
 				label := ""
 				if pp.Label != nil {
@@ -672,6 +794,7 @@ func info(script *logql_parser.LogQLScript) *qinfo {
 				qi.jparams = append(qi.jparams, jparam{label, path})
 				qi.addLabel(label, "")
 			}
+			qi.prog = append(qi.prog, pstage{kind: "json", jps: append([]jparam{}, qi.jparams[jp0:]...)})
 		case p.Parser != nil && p.Parser.Fn == "regexp" && len(p.Parser.ParserParams) > 0:
 			src := unq(&p.Parser.ParserParams[0].Val)
 			var rp rparam
@@ -682,6 +805,7 @@ func info(script *logql_parser.LogQLScript) *qinfo {
 			rp.src, rp.naive = src, namedOpen.ReplaceAllString(src, "(")
 			qi.stages = append(qi.stages, "regexp")
 			qi.rparams = append(qi.rparams, rp)
+			qi.prog = append(qi.prog, pstage{kind: "regexp", rp: rp})
 			for _, n := range rp.names {
 				if n != "" {
 					qi.addLabel(n, "")
@@ -689,26 +813,182 @@ func info(script *logql_parser.LogQLScript) *qinfo {
 			}
 		case p.Drop != nil:
 			qi.stages = append(qi.stages, "drop")
+			st := pstage{kind: "drop"}
 			for _, dp := range p.Drop.Params {
 				v := ""
 				if dp.Val != nil {
 					v = unq(dp.Val)
 				}
 				qi.addLabel(dp.Label.Name, v)
+				st.drop = append(st.drop, [2]string{dp.Label.Name, v})
+			}
+			qi.prog = append(qi.prog, st)
+		case p.LineFormat != nil:
+			// `| line_format "tmpl"`: the line becomes the template executed over the current labels (round 5: inside the
+			// search; LineFormatPlanner answers with an error for a template it does not support, then there is no SQL)
+			t := unq(&p.LineFormat.Val)
+			qi.stages = append(qi.stages, "line_format")
+			qi.lfmts = append(qi.lfmts, t)
+			qi.prog = append(qi.prog, pstage{kind: "line_format", tmpl: t})
+			for _, m := range tplField.FindAllStringSubmatch(t, -1) {
+				qi.addLabel(m[1], "")
 			}
 		default:
 			return nil
 		}
 	}
+	qi.steerFormatted(script)
 	return qi
+}
+
+var tplField = regexp.MustCompile(`\{\{ *\.([A-Za-z_][A-Za-z0-9_]*) *\}\}`)
+var tplJSONMember = regexp.MustCompile(`"([A-Za-z_][A-Za-z0-9_]*)": ?"?\{\{ *\.([A-Za-z_][A-Za-z0-9_]*) *\}\}`)
+
+// steerFormatted: behind a line_format the line filters test the FORMATTED line and json parameters read it. The database
+// builder only knows label values and stored lines, so the comparisons made on the formatted line are turned into candidate
+// values of the labels the template prints: for a later line filter value v and a field {{.l}} between the texts `pre` and
+// `post`, v without the part that overlaps `pre` / `post` is a value of l that makes the formatted line contain v; for a later
+// json parameter y="k" over a template that prints "k":"{{.l}}", the comparisons the query makes on y are made on l too.
+// (Steering only: what a case means is decided by the Coq reference.)
+func (qi *qinfo) steerFormatted(script *logql_parser.LogQLScript) {
+	if len(qi.lfmts) == 0 {
+		return
+	}
+	ppl := script.StrSelector.Pipelines
+	for i := range ppl {
+		if ppl[i].LineFormat == nil {
+			continue
+		}
+		t := unq(&ppl[i].LineFormat.Val)
+		locs := tplField.FindAllStringSubmatchIndex(t, -1)
+		for j := i + 1; j < len(ppl); j++ {
+			if ppl[j].LineFormat != nil {
+				break
+			}
+			if lf := ppl[j].LineFilter; lf != nil && (lf.Fn == "|=" || lf.Fn == "!=") {
+				v := unq(&lf.Val)
+				for k, loc := range locs {
+					name := t[loc[2]:loc[3]]
+					pre, post := t[:loc[0]], t[loc[1]:]
+					if k > 0 {
+						pre = t[locs[k-1][1]:loc[0]]
+					}
+					if k+1 < len(locs) {
+						post = t[loc[1]:locs[k+1][0]]
+					}
+					w := v
+					for n := len(w); n > 0; n-- { // the longest beginning of v that ends `pre`
+						if strings.HasSuffix(pre, w[:n]) {
+							w = w[n:]
+							break
+						}
+					}
+					for n := 0; n < len(w); n++ { // the longest end of v that begins `post`
+						if strings.HasPrefix(post, w[n:]) {
+							w = w[:n]
+							break
+						}
+					}
+					qi.labelVals[name] = append(qi.labelVals[name], w, w)
+					qi.cons = append(qi.cons, constraint{name, map[string]string{"|=": "=", "!=": "!="}[lf.Fn], w, false})
+				}
+			}
+			if ps := ppl[j].Parser; ps != nil && ps.Fn == "json" {
+				for _, m := range tplJSONMember.FindAllStringSubmatch(t, -1) {
+					for _, pp := range ps.ParserParams {
+						if pp.Label == nil || unq(&pp.Val) != m[1] {
+							continue
+						}
+						qi.labelVals[m[2]] = append(qi.labelVals[m[2]], qi.labelVals[pp.Label.Name]...)
+						for _, c := range qi.cons {
+							if c.name == pp.Label.Name {
+								c.name = m[2]
+								qi.cons = append(qi.cons, c)
+							}
+						}
+					}
+				}
+			}
+		}
+	}
+}
+
+// reach: every line and every label value a sample can show to a later stage. The stages that change the line or the labels
+// are replayed over the stored line and the stream's labels (json: jsonGet, a found value is written; regexp: the named
+// groups of the first match, non-empty ones are written; drop; line_format: the REAL text/template over the label map);
+// filters are not replayed - a filter only removes lines, so what is collected is a superset of what any stage meets. Used
+// only to decide which rows the oracle tables (regexp.MatchString, ParseFloat, jsonGet, capture groups) need for a query with
+// a line_format: the formatted lines are no stored lines. The reference answer itself is computed in Coq (run_lstages).
+func reach(qi *qinfo, db DB) (lines []string, vals []string) {
+	labelsOf := map[int64][][2]string{}
+	for _, s := range db.Series {
+		if _, ok := labelsOf[s.Fp]; !ok {
+			labelsOf[s.Fp] = s.Labels
+		}
+	}
+	for _, x := range db.Samples {
+		line := x.Line
+		ls := map[string]string{}
+		for _, kv := range labelsOf[x.Fp] {
+			ls[kv[0]] = kv[1]
+		}
+		for _, st := range qi.prog {
+			switch st.kind {
+			case "json":
+				for _, jp := range st.jps {
+					if v := jsonGet(line, jp.path); v != "" {
+						ls[jp.label] = v
+						vals = append(vals, v)
+					}
+				}
+			case "regexp":
+				for _, p := range []string{st.rp.sent, st.rp.naive} {
+					re, err := regexp.Compile(p)
+					if err != nil {
+						continue
+					}
+					for k, v := range pairUp(st.rp.names, lastGroups(re, line)) {
+						ls[k] = v
+						vals = append(vals, v)
+					}
+					break
+				}
+			case "drop":
+				for _, d := range st.drop {
+					if v, ok := ls[d[0]]; ok && (d[1] == "" || d[1] == v) {
+						delete(ls, d[0])
+					}
+				}
+			case "line_format":
+				tpl, err := template.New("t").Parse(st.tmpl)
+				if err != nil {
+					continue
+				}
+				var b bytes.Buffer
+				if err := tpl.Execute(&b, ls); err != nil {
+					continue
+				}
+				line = b.String()
+				lines = append(lines, line)
+			}
+		}
+	}
+	return lines, vals
 }
 
 // ---------------------------------------------------------------- databases
 
+// The values are cut by CHARACTER, not by byte: cutting one byte out of a multi-byte character (v[1:] of "é") makes a value
+// that is not UTF-8, which (a) the JSON lines this harness prints cannot carry (encoding/json writes U+FFFD, so the database
+// of a replay would not be the database that was evaluated) and (b) made two different label sets - level="\xc3" and
+// level="\xa9" - share one fingerprint while genDB keyed its fingerprint table by the JSON text (thorough tier, seed 20260930:
+// {status="ab.c",level!="é"}, db#5 violated db_ok). A query string that is itself not UTF-8 keeps its byte-wise variants.
 func nearMiss(v string) []string {
 	res := []string{v, v + "x", "x" + v, strings.ToUpper(v)}
 	if len(v) > 0 {
-		res = append(res, v[:len(v)-1], v[1:])
+		_, first := utf8.DecodeRuneInString(v)
+		_, last := utf8.DecodeLastRuneInString(v)
+		res = append(res, v[:len(v)-last], v[first:])
 		// the characters LIKE and regular expressions treat specially, replaced by an ordinary one
 		for _, c := range []string{"%", "_", ".", "\\", "'", "*"} {
 			if strings.Contains(v, c) {
@@ -717,6 +997,14 @@ func nearMiss(v string) []string {
 		}
 	}
 	return res
+}
+
+func labelsKey(ls [][2]string) string {
+	var b strings.Builder
+	for _, kv := range ls {
+		fmt.Fprintf(&b, "%d:%s=%d:%s;", len(kv[0]), kv[0], len(kv[1]), kv[1])
+	}
+	return b.String()
 }
 
 func fromDay(fromNs int64) int64 {
@@ -777,7 +1065,9 @@ func genDB(r *rand.Rand, qi *qinfo, c Ctx) DB {
 				ls = append(ls, [2]string{n, v})
 			}
 		}
-		kb, _ := json.Marshal(ls)
+		// one fingerprint per label set, keyed by the exact BYTES of the pairs (not by their JSON text: encoding/json maps
+		// every byte sequence that is not UTF-8 to U+FFFD, so different label sets would share a fingerprint)
+		kb := labelsKey(ls)
 		fp, ok := fpOf[key(kb)]
 		if !ok {
 			fp = int64(len(fpOf) + 1)
@@ -1014,28 +1304,48 @@ func jsonGet(line string, path []string) string {
 	return string(cur)
 }
 
-func jgTable(qi *qinfo, dbs []DB) string {
-	seenL := map[string]bool{}
+// allLines: the distinct lines the stages of the query can meet over these databases - the stored lines in database order
+// and, for a query with a line_format, the formatted lines (reach)
+func allLines(qi *qinfo, dbs []DB) []string {
+	seen := map[string]bool{}
 	var res []string
 	for _, db := range dbs {
 		for _, x := range db.Samples {
-			if seenL[x.Line] {
+			if !seen[x.Line] {
+				seen[x.Line] = true
+				res = append(res, x.Line)
+			}
+		}
+	}
+	if len(qi.lfmts) > 0 {
+		for _, db := range dbs {
+			ls, _ := reach(qi, db)
+			for _, l := range ls {
+				if !seen[l] {
+					seen[l] = true
+					res = append(res, l)
+				}
+			}
+		}
+	}
+	return res
+}
+
+func jgTable(qi *qinfo, dbs []DB) string {
+	var res []string
+	for _, line := range allLines(qi, dbs) {
+		seenP := map[string]bool{}
+		for _, jp := range qi.jparams {
+			key := strings.Join(jp.path, "\x00")
+			if seenP[key] {
 				continue
 			}
-			seenL[x.Line] = true
-			seenP := map[string]bool{}
-			for _, jp := range qi.jparams {
-				key := strings.Join(jp.path, "\x00")
-				if seenP[key] {
-					continue
-				}
-				seenP[key] = true
-				var ps []string
-				for _, p := range jp.path {
-					ps = append(ps, y.Str(p))
-				}
-				res = append(res, y.Pair(y.Pair(y.Str(x.Line), y.List(ps)), y.Str(jsonGet(x.Line, jp.path))))
+			seenP[key] = true
+			var ps []string
+			for _, p := range jp.path {
+				ps = append(ps, y.Str(p))
 			}
+			res = append(res, y.Pair(y.Pair(y.Str(line), y.List(ps)), y.Str(jsonGet(line, jp.path))))
 		}
 	}
 	return y.List(res)
@@ -1065,19 +1375,12 @@ func rgTable(qi *qinfo, dbs []DB) string {
 		if err != nil || re.NumSubexp() == 0 {
 			continue
 		}
-		seenL := map[string]bool{}
-		for _, db := range dbs {
-			for _, x := range db.Samples {
-				if seenL[x.Line] {
-					continue
-				}
-				seenL[x.Line] = true
-				var vs []string
-				for _, v := range lastGroups(re, x.Line) {
-					vs = append(vs, y.Str(v))
-				}
-				res = append(res, y.Pair(y.Pair(y.Str(p), y.Str(x.Line)), y.List(vs)))
+		for _, line := range allLines(qi, dbs) {
+			var vs []string
+			for _, v := range lastGroups(re, line) {
+				vs = append(vs, y.Str(v))
 			}
+			res = append(res, y.Pair(y.Pair(y.Str(p), y.Str(line)), y.List(vs)))
 		}
 	}
 	return y.List(res)
@@ -1123,6 +1426,25 @@ func oracles(qi *qinfo, dbs []DB) (reML, pfML string, err error) {
 						subj[v] = true
 					}
 				}
+			}
+		}
+		if len(qi.lfmts) > 0 { // formatted lines, and what json / regexp stages extract from them
+			ls, vs := reach(qi, db)
+			for _, l := range ls {
+				subj[l] = true
+				for _, jp := range qi.jparams {
+					subj[jsonGet(l, jp.path)] = true
+				}
+				for _, p := range rgPatterns(qi) {
+					if re, err := regexp.Compile(p); err == nil {
+						for _, v := range lastGroups(re, l) {
+							subj[v] = true
+						}
+					}
+				}
+			}
+			for _, v := range vs {
+				subj[v] = true
 			}
 		}
 	}
@@ -1350,7 +1672,69 @@ func enrich(c *Case, seed int64, ndb int) {
 	c.DbsML = y.List(ds)
 }
 
-var mode = flag.String("mode", "gen", "gen | enrich")
+type SelfTest struct {
+	ID       int    `json:"id"`
+	Query    string `json:"query"`
+	Dbs      int    `json:"dbs"`
+	NonASCII int    `json:"non_ascii_values"`
+	Bad      string `json:"bad,omitempty"`
+}
+
+var nonASCIIQueries = []string{
+	"{status=\"ab.c\",level!=\"é\"} |~ `api`",
+	"{app=\"日本\",level=~\"é|É\"} |= \"é\"",
+	"{level=\"naïve\"} | level!=\"Ünï\" | status=\"€\" | drop level=\"é\"",
+	"{a=\"é\"} | json level=\"msg\" | level=\"日本\" | line_format \"{{.level}}→{{.a}}\" |= \"本→é\"",
+}
+
+func isASCII(s string) bool {
+	for i := 0; i < len(s); i++ {
+		if s[i] >= 128 {
+			return false
+		}
+	}
+	return true
+}
+
+// dbProblem: what db_ok (model/LogqlSem.v) asks of a database, checked on the Go side byte by byte
+func dbProblem(db DB, c Ctx) string {
+	byFp := map[int64]string{}
+	for _, s := range db.Series {
+		k := labelsKey(s.Labels)
+		if old, ok := byFp[s.Fp]; ok && old != k {
+			return fmt.Sprintf("fingerprint %d has two label sets: %q and %q", s.Fp, old, k)
+		}
+		byFp[s.Fp] = k
+		seen := map[string]bool{}
+		for _, kv := range s.Labels {
+			if seen[kv[0]] {
+				return fmt.Sprintf("label %q twice in one series", kv[0])
+			}
+			seen[kv[0]] = true
+			if !utf8.ValidString(kv[0]) || !utf8.ValidString(kv[1]) {
+				return fmt.Sprintf("label %q=%q is not UTF-8 (the JSON line cannot carry it)", kv[0], kv[1])
+			}
+		}
+	}
+	day := fromDay(c.FromNs)
+	for _, x := range db.Samples {
+		ok := false
+		for _, s := range db.Series {
+			if s.Fp == x.Fp && s.Type == x.Type && s.Day >= day {
+				ok = true
+			}
+		}
+		if !ok {
+			return fmt.Sprintf("sample of fingerprint %d type %d has no series row", x.Fp, x.Type)
+		}
+		if !utf8.ValidString(x.Line) {
+			return fmt.Sprintf("line %q is not UTF-8", x.Line)
+		}
+	}
+	return ""
+}
+
+var mode = flag.String("mode", "gen", "gen | enrich | regroups | dbselftest")
 var ndb = flag.Int("dbs", 6, "databases per case (enrich)")
 
 // ---------------------------------------------------------------- regexp stage: capture groups and label names
@@ -1521,6 +1905,49 @@ func main() {
 		for i := 0; i < f.N/13+4; i++ {
 			q, class := genEmptyLabelFilter(r2)
 			put(r2, f.N+i, q, class)
+		}
+		// line_format pipelines, likewise from a stream of their own
+		r3 := hx.Rand(f.Seed*104729 + 5)
+		for i := 0; i < f.N/8+6; i++ {
+			q, class := genLineFormat(r3)
+			put(r3, 2*f.N+i, q, class)
+		}
+	case "dbselftest":
+		// the database builder on queries with non-ASCII values: every database has ONE label set per fingerprint (compared
+		// byte by byte), label names are distinct, every string is UTF-8 (so the JSON line of a case or a replay carries
+		// exactly the database the OCaml term carries), a sample has a series row of its type on a day the reader looks at.
+		// Regression of the thorough-tier failure of round 4 (a near miss cut one BYTE of "é"; two label sets shared a
+		// fingerprint because the table was keyed by their JSON text).
+		r := hx.Rand(f.Seed)
+		for i, q := range nonASCIIQueries {
+			res := SelfTest{ID: i, Query: q}
+			script, err := logql_parser.Parse(q)
+			if err != nil {
+				res.Bad = "parse: " + err.Error()
+				out.Put(res)
+				continue
+			}
+			qi := info(script)
+			if qi == nil {
+				res.Bad = "outside the fragment"
+				out.Put(res)
+				continue
+			}
+			from := int64(1700273076911556508)
+			c := Ctx{FromNs: from, ToNs: from + 3914e9, Type: uint8(i % 3), Finalize: true, StepMs: 1000}
+			for k := 0; k < f.N && res.Bad == ""; k++ {
+				db := genDB(r, qi, c)
+				res.Dbs++
+				res.Bad = dbProblem(db, c)
+				for _, s := range db.Series {
+					for _, kv := range s.Labels {
+						if !isASCII(kv[1]) {
+							res.NonASCII++
+						}
+					}
+				}
+			}
+			out.Put(res)
 		}
 	case "regroups":
 		r := hx.Rand(f.Seed)
